@@ -51,6 +51,25 @@ def opaque_bus(p):
     return shapes.build(p, BUS, leaf)
 
 
+concrete_values = []
+
+
+def concrete_bus(p):
+    """a bus whose u8 registers hold pairwise different constants (floats and wider integers stay unknown)"""
+    del concrete_values[:]
+
+    def leaf(path, ty):
+        if ty == "u8":
+            v = 0x11 + 0x0D * len(concrete_values)
+            if v > 0xEE:
+                return shapes.top_leaf(path, ty)
+            concrete_values.append(v)
+            return v
+        return shapes.top_leaf(path, ty)
+    ov = {"ram.0": ArrS(D.norm_rng(0, 255), 240)}
+    return shapes.build(p, BUS, leaf, (), ov)
+
+
 def origin_of(body, local, depth=8):
     """follow copies / widening casts back: returns ('param', n) | ('expr', stmt)"""
     for _ in range(depth):
@@ -137,10 +156,10 @@ def run(ctx):
                "%s" % fails[:2])
         if sp.get("store"):
             # the stored value is the written byte (for flag registers: its defined bits), whatever was stored before
-            def stored_after(a_, byte):
+            def stored_after(a_, byte, concrete=False):
                 st2 = absint.State()
                 I.heap_counter = 0
-                bus0 = opaque_bus(p)
+                bus0 = concrete_bus(p) if concrete else opaque_bus(p)
                 if sp["store"].startswith("ram["):
                     # RAM with one opaque value per cell (the summarised array cannot show which cell changed)
                     rf = list(bus0.f)
@@ -167,7 +186,20 @@ def run(ctx):
                     ty = p.need_type(base)["variants"][0]["fields"][idx]["ty"]
                 return I.load(st2, b2, tuple(path)), st2, b2
             for a_ in sorted({lo, hi, (lo + hi) // 2}):
-                if sp["store_kind"] == "exact":
+                if sp["store_kind"] == "exact" and not sp["store"].startswith("ram["):
+                    # a register outside the RAM: over a bus whose byte-sized registers all hold different values, every one of
+                    # those values (and 0x00, 0xFF) is written; the register must hold the written byte afterwards.  (A write
+                    # that is skipped because the register already holds the byte passes; one that is skipped because some
+                    # OTHER register holds it does not.)
+                    pool = sorted(set(concrete_values) | {0x00, 0xFF})
+                    wrong = []
+                    for byte_ in pool:
+                        vb, _s, _b = stored_after(a_, byte_, concrete=True)
+                        if vb != byte_:
+                            wrong.append("write %#04x -> %s" % (byte_, D.short(vb)))
+                    okv = not wrong
+                    det = "; ".join(wrong[:3]) or "%d byte values over a bus of distinct register contents" % len(pool)
+                elif sp["store_kind"] == "exact":
                     v, st2, b2 = stored_after(a_, Opaque("BYTE"))
                     okv = v == Opaque("BYTE")
                     det = "stored: %r" % (v,)
